@@ -43,17 +43,31 @@ fn read_and_cut_text_as_bytes<R: std::io::BufRead, W: Write>(
     ))
 }
 
+/// Print a help or version text and exit. A failing stdout (`tuc --help | head -1`,
+/// a full disk) is reported like any other write error: `print!` would panic.
+fn print_and_exit(text: &str) -> ! {
+    let mut stdout = std::io::stdout().lock();
+    match stdout
+        .write_all(text.as_bytes())
+        .and_then(|_| stdout.flush())
+    {
+        Ok(()) => std::process::exit(0),
+        Err(e) => {
+            eprintln!("Error: {e}");
+            std::process::exit(1);
+        }
+    }
+}
+
 fn parse_args() -> Result<Opt, pico_args::Error> {
     let mut pargs = pico_args::Arguments::from_env();
 
     if args().len() == 1 {
-        print!("{}", get_short_help());
-        std::process::exit(0);
+        print_and_exit(&get_short_help());
     }
 
     if pargs.contains(["-h", "--help"]) {
-        print!("{}", get_help());
-        std::process::exit(0);
+        print_and_exit(&get_help());
     }
 
     let mut maybe_fields: Option<UserBoundsList> = pargs.opt_value_from_str(["-f", "--fields"])?;
@@ -242,8 +256,7 @@ fn parse_args() -> Result<Opt, pico_args::Error> {
     let remaining = pargs.finish();
 
     if args.version {
-        println!("tuc {}", env!("CARGO_PKG_VERSION"));
-        std::process::exit(0);
+        print_and_exit(concat!("tuc ", env!("CARGO_PKG_VERSION"), "\n"));
     }
 
     if !remaining.is_empty() {
